@@ -1968,7 +1968,11 @@ class BreakAction(Action, HasDefaultDebugInfo):
         return True
 
     def get_target_override_targets(self):
-        return [self.refers_to.end_state]
+        # one of the actions performed on the way out may itself leave for somewhere else (the break of an enclosing loop)
+        return [self.refers_to.end_state, *(tgt for act in self.embeds() for tgt in act.get_target_override_targets())]
+
+    def embeds(self):
+        return self.refers_to.after_break_actions
 
     def get_target_override_mode(self):
         return ActionOverrideMode.ALWAYS_GOTO_OTHER
